@@ -1,0 +1,21 @@
+//go:build verif
+
+// Contracts for govc (contract-based deductive verification, /verif). Comment-only file:
+// it is compiled only under the build tag "verif" and contains no code.
+
+package bfe_websocket
+
+// ---- C07: a tunnelled connection holds exactly one connection on the backend it is connected to ----
+
+//@ func (*serverConn).findBackend
+//@   props C07
+//@   requires sc != nil && sc.srv != nil
+//@   requires forall b *backend.BfeBackend :: -1000000000 < b.connNum && b.connNum < 1000000000
+//@   frame * keeps any backend.BfeBackend.connNum
+//@   note the balance handler, address lookup and dialling are assumed not to change any backend's connection count
+//@   assume[the_balance_handler_returns_a_backend_or_an_error] at "backend.IncConnNum()" :: backend != nil
+//@   modifies *
+//@   ensures[a_connected_backend_is_charged_once] result2 == nil ==> (forall b *backend.BfeBackend :: b != nil && b == result1 ==> b.connNum == old(b.connNum) + 1)
+//@   ensures[and_no_other_backend] result2 == nil ==> (forall b *backend.BfeBackend :: b != result1 ==> b.connNum == old(b.connNum))
+//@   ensures[a_failed_attempt_charges_nobody] result2 != nil ==> (forall b *backend.BfeBackend :: b.connNum == old(b.connNum))
+//@   loop 1 invariant[failed_attempts_are_refunded] forall b *backend.BfeBackend :: b.connNum == old(b.connNum)
